@@ -332,7 +332,7 @@ def run(out: Outcome) -> None:
     # a flip difference counts only when neither run hit a near-tie before it (decided by the model's tie detector)
     idx = {id(r): v for r, v in zip(runners, validated)}
     for a, b, t, rep in out.flip_candidates:
-        if idx.get(id(a), 0) > t and idx.get(id(b), 0) > t:
+        if all((getattr(x, "tie_at", None) is None or x.tie_at > t) and (getattr(x, "mismatch_at", None) is None or x.mismatch_at > t) and id(x) in idx for x in (a, b)):
             out.violation(f"HDDMA two-sided: verdicts change under x -> 1-x at step {t}: {rep['got']} vs {rep['flipped']}", rep)
         else:
             out.count("flip_differences_excluded_as_near_tie")
@@ -353,5 +353,5 @@ def replay(out: Outcome, payload: dict) -> None:
     validated = corr.compare_batch(out, runners)
     idx = {id(r): v for r, v in zip(runners, validated)}
     for a, b, t, rep in out.flip_candidates:
-        if idx.get(id(a), 0) > t and idx.get(id(b), 0) > t:
+        if all((getattr(x, "tie_at", None) is None or x.tie_at > t) and (getattr(x, "mismatch_at", None) is None or x.mismatch_at > t) and id(x) in idx for x in (a, b)):
             out.violation(f"HDDMA two-sided: verdicts change under x -> 1-x at step {t}", rep)
